@@ -6,6 +6,8 @@ let ni = n_of_int
 let si x = string_of_int (int_of_n x)
 let split_on s sep = Str.split_delim (Str.regexp_string sep) s
 
+(* Q in a "def:" name: the restore-window queue drops releases past its bound *)
+let vq = ref true
 let variant_of = function
   | "repaired" | "" -> repaired
   | "defective" -> defective
@@ -192,6 +194,67 @@ let run_case (v : variant) (line : string) (impl : string option) : string =
               | ["I"; k; ip; a; b] -> let (p', o) = step v c !p (ORestoreIfAbsent (nn k, blk ip a b)) in p := p'; emit (show_out_pool o)
               | ["d"] -> emit (dump c !p)
               | _ -> emit "badop") ops
+          end else if kind = "ev" then begin
+            let es = ref (ecomp_init p0) in
+            let acc_of = function "p" -> APPPoE | "o" -> AOtherAccess | _ -> AIPoE in
+            let st_of = function "a" -> SActive | "r" -> SReleased | _ -> SOtherState in
+            let qstate () = Printf.sprintf " q=%d/%s" (List.length !es.e_queue) (si !es.e_dropped) in
+            (* the blocks the implementation reported in one output, in order *)
+            let adds_of i =
+              if i < Array.length impl_outs then
+                List.filter_map (fun t -> obs_of_impl (String.trim t))
+                  (split_on (List.hd (split_on impl_outs.(i) " q=")) "+")
+              else [] in
+            let deliver i e =
+              let was_drained = !es.e_drained in
+              let o = (match adds_of i with b :: _ -> Some b | [] -> None) in
+              let out = if was_drained then show_out_dp (snd (dispatch v c !es.e_comp e o)) else "nodp" in
+              es := estep !vq v c !es (EvDeliver (e, o));
+              emit (out ^ qstate ()) in
+            List.iteri (fun i tok ->
+              match split_on tok ":" with
+              | "eL" :: st :: acc :: sid :: k :: rest ->
+                let pat = (match rest with [x] -> x | _ -> "") in
+                let dl = List.init (String.length pat) (fun j -> pat.[j] = 'o' || pat.[j] = 'O') in
+                deliver i (ELifecycle (st_of st, acc_of acc, nn sid, nn k, dl))
+              | ["eP"; acc; sid; k; ok] -> deliver i (EProgrammed (acc_of acc, nn sid, nn k, ok = "1"))
+              | ["eR"; acc; sid; k; ok] -> deliver i (ERestored (acc_of acc, nn sid, nn k, ok = "1"))
+              | ["eB"] -> deliver i EBadPayload; es := estep !vq v c !es (EvDeliver (EBadPayload, None));
+                          es := estep !vq v c !es (EvDeliver (EBadPayload, None));
+                          (match !outs with _ :: r -> outs := ("nodp" ^ qstate ()) :: r | [] -> ())
+              | ["F"; n] ->
+                for _ = 1 to int_of_string n do
+                  es := estep !vq v c !es (EvDeliver (ELifecycle (SActive, AIPoE, N0, N0, []), None))
+                done;
+                emit ("ok" ^ qstate ())
+              | ["Z"] ->
+                (* replay the queue, giving every event that makes a dataplane add the next block the implementation
+                   reported *)
+                let remaining = ref (adds_of i) and results = ref [] and obsl = ref [] in
+                let sim = ref !es.e_comp in
+                List.iter (fun e ->
+                  let o = (match !remaining with b :: _ -> Some b | [] -> None) in
+                  let (s', out) = dispatch v c !sim e o in
+                  (match out with
+                   | RBlock (true, _) | RInadmissible _ ->
+                     results := show_out_dp out :: !results;
+                     (match !remaining with _ :: r -> remaining := r | [] -> ())
+                   | _ -> ());
+                  obsl := o :: !obsl; sim := s') !es.e_queue;
+                es := estep !vq v c !es (EvDrain (List.rev !obsl));
+                emit ((if !results = [] then "nodp" else String.concat "+" (List.rev !results)) ^ qstate ())
+              | ["P"; sid; mk; ip; a; b] | ["P"; sid; mk; ip; a; b; "0"] ->
+                es := estep !vq v c !es (EvDirect (CRestorePresent (nn sid, nn mk, blk ip a b, N0, None))); emit "nodp"
+              | ["D"; sid; mk; ip; a; b] ->
+                es := estep !vq v c !es (EvDirect (CRestoreDegraded (nn sid, nn mk, blk ip a b))); emit "nodp"
+              | ["d"] ->
+                let s = !es.e_comp in
+                let sess = List.sort compare (List.map int_of_n s.cp_sess) in
+                let sess = if sess = [] then "-" else String.concat "," (List.map string_of_int sess) in
+                emit (Printf.sprintf "%s sess=%s rev=%d/%d" (dump c s.cp_pool) sess
+                        (List.length s.cp_rev.r_byblock) (List.length s.cp_rev.r_byip))
+              | ["w"; lo; hi] -> emit (sweep !es.e_comp (int_of_string lo) (int_of_string hi))
+              | _ -> emit "badop") ops
           end else begin
             let s = ref (comp_init p0) in
             List.iteri (fun i tok ->
@@ -233,7 +296,8 @@ let () =
       Some (String.split_on_char ',' (String.sub vname 4 (String.length vname - 4))) else None in
   List.iteri (fun i line ->
     let il = match impl with Some a when i < Array.length a -> Some a.(i) | _ -> None in
-    let one v = try run_case (variant_of v) line il with e -> "MODELERROR " ^ Printexc.to_string e in
+    let one v = vq := not (String.length v > 4 && String.contains (String.sub v 4 (String.length v - 4)) 'Q');
+      try run_case (variant_of v) line il with e -> "MODELERROR " ^ Printexc.to_string e in
     match multi with
     | Some vs -> print_endline (String.concat " ### " (List.map one vs))
     | None -> print_endline (one vname)) lines
